@@ -18,7 +18,7 @@ SymTable == [m \in SpreadingModels |->
     : a \in {b \in ParamsR(m) : HasPiSym(m, b)}}]
 GeoGrid == [m \in SpreadingModels |->
    {[par |-> a, tops |-> GeoTops(m, a), offset |-> ImplPiOffset(m, a)] : a \in ParamsG(m)}]
-GeoMeta == [lnr |-> LnR, per_octave |-> GeoPerOctave, octaves |-> GeoOctaves, window |-> GeoWindow,
+GeoMeta == [pt_exps |-> PointMagnitudeExps, lnr |-> LnR, per_octave |-> GeoPerOctave, octaves |-> GeoOctaves, window |-> GeoWindow,
             quad |-> {m \in SpreadingModels : QuadBased(m)}, zexp |-> 40]
 PtScen == UNION {{[P |-> P, N |-> N,
                    qs |-> LET qq == Queries(P) IN [i \in 1..Len(qq) |->
